@@ -68,8 +68,9 @@ class Const:
     _instances: MutableMapping[Any, Const] = weakref.WeakValueDictionary()
 
     def __new__(cls, const: Any) -> Const:
-        # equal values of different types (1, 1.0, True) must not share an instance
-        key = (type(const), const)
+        # equal values that are not the same value (1, 1.0 and True; also (1,) and (True,),
+        # 0.0 and -0.0) must not share an instance, the later one would replace the former
+        key = (type(const), const, repr(const))
         try:
             return cls._instances[key]
             # __init__ will be invoked anyway
